@@ -368,6 +368,49 @@ inline std::vector<ClassDef> buildClasses()
         u.def.makeDefault = [uraw] { return std::unique_ptr<Subject>(new Subj<U>(uraw, 0u)); };
         all.push_back(u.def);
     }
+    {  // the same two for TECMP: type setters of TECMP::Payload and TECMP::PayloadType as a value class
+        using T = TECMP::Payload;
+        using MT = TECMP::CmpHeader::MessageType;
+        Tab<T> t;
+        t.add("type", 0, 4, 0xFFFFFFFF, 0, VF_G(T, o.getType().getType()), VF_S(T, o.setType(TECMP::PayloadType(static_cast<uint32_t>(v)))));
+        t.add("messageType", 0, 4, 0x0000FF00, 8, VF_G(T, o.getMessageType()), VF_S(T, o.setMessageType(static_cast<MT>(v))));
+        t.add("rawPayloadType", 0, 4, 0x000000FF, 0, VF_G(T, o.getRawPayloadType()), VF_S(T, o.setRawPayloadType(static_cast<uint8_t>(v))));
+        auto raw = [](const T& o) {
+            Bytes b;
+            wire::put32(b, o.getType().getType());
+            wire::putBytes(b, o.getRawPayload(), o.getLength());
+            return b;
+        };
+        t.def.name = "TECMP::Payload.type";
+        t.def.tableSize = 4;
+        t.def.realBytes = false;
+        t.def.defaultLength = 0;
+        t.def.backgroundSize = 4 + 6;
+        t.def.makeFromRaw = [raw](const Bytes& b) { return std::unique_ptr<Subject>(new Subj<T>(raw, TECMP::PayloadType(wire::get32(b.data())), b.data() + 4, b.size() - 4)); };
+        t.def.makeDefault = [raw] {
+            static const uint8_t d[6] = {9, 8, 7, 6, 5, 4};
+            return std::unique_ptr<Subject>(new Subj<T>(raw, TECMP::PayloadType(TECMP::PayloadType::can), d, sizeof d));
+        };
+        all.push_back(t.def);
+        using U = TECMP::PayloadType;
+        Tab<U> u;
+        u.add("type", 0, 4, 0xFFFFFFFF, 0, VF_G(U, o.getType()), VF_S(U, o.setType(static_cast<uint32_t>(v))));
+        u.add("messageType", 0, 4, 0x0000FF00, 8, VF_G(U, o.getMessageType()), VF_S(U, o.setMessageType(static_cast<MT>(v))));
+        u.add("rawPayloadType", 0, 4, 0x000000FF, 0, VF_G(U, o.getRawPayloadType()), VF_S(U, o.setRawPayloadType(static_cast<uint8_t>(v))));
+        auto uraw = [](const U& o) {
+            Bytes b;
+            wire::put32(b, o.getType());
+            return b;
+        };
+        u.def.name = "TECMP::PayloadType";
+        u.def.tableSize = 4;
+        u.def.realBytes = false;
+        u.def.defaultLength = 0;
+        u.def.backgroundSize = 4;
+        u.def.makeFromRaw = [uraw](const Bytes& b) { return std::unique_ptr<Subject>(new Subj<U>(uraw, wire::get32(b.data()))); };
+        u.def.makeDefault = [uraw] { return std::unique_ptr<Subject>(new Subj<U>(uraw, 0u)); };
+        all.push_back(u.def);
+    }
     {  // CAN (16-byte payload header)
         using T = CanPayload;
         using F = CanPayloadBase::Flags;
